@@ -44,27 +44,30 @@ that `OFModel/Lineage.lean` (C18) can interleave them with the heartbeat thread.
 
 Not modelled: what `setup/process/shutdown` compute, the MQ protocol (C01–C07), logging, metrics,
 the parsing of `exit_after` (the harness turns every form into a deadline in ms), `SignalStopper`
-(the harness passes `sig_stop=False`; a signal is the `stop` action), `BaseException`s other than
-`Exit` (KeyboardInterrupt), `sys.exc_info()` of a caller that runs `Filter.run` inside an `except`
-block.
+(the harness passes `sig_stop=False`; a signal is the `stop` action, a Ctrl-C without the hook is the
+`interrupt` action), `sys.exc_info()` of a caller that runs `Filter.run` inside an `except` block.
 -/
 namespace OF.Life
 
-/-- `Filter.Exit` (a `SystemExit`, *not* an `Exception`), `Filter.PropagateError`, any other `Exception`. -/
+/-- `Filter.Exit` (a `SystemExit`, *not* an `Exception`), `Filter.PropagateError`, any other `Exception`, and
+`base`: a `BaseException` that is neither an `Exception` nor a `Filter.Exit` (`KeyboardInterrupt`, a plain
+`SystemExit(n)`): no handler of `run` catches it, the loop's `except loop_exc` does not see it. -/
 inductive Exn where
-  | exit | propagate | other
+  | exit | propagate | other | base
 deriving Repr, DecidableEq, Inhabited
 
 /-- `isinstance(e, Exception)` -/
 def Exn.isException : Exn → Bool
   | .exit => false
+  | .base => false
   | _ => true
 
 /-- what happens at a lifecycle point -/
 inductive Act where
   | ret                      -- returns normally
   | raise                    -- raises an Exception
-  | exitCall (e : Exn)       -- calls `self.exit(reason, exc)`: `.exit` = no `exc`, else `exc` = PropagateError / RuntimeError
+  | interrupt                -- a KeyboardInterrupt is raised at this point (Ctrl-C without the signal hook)
+  | exitCall (e : Exn)       -- calls `self.exit(reason, exc)`: `.exit` = no `exc`, else `exc` = PropagateError / RuntimeError / SystemExit(1) (`.base`)
   | exitMsg (error : Bool)   -- an exit message arrives: `on_exit_msg('error' | 'clean')` is called
   | stop                     -- the stop event is set from outside; at recv/send additionally the call times out
 deriving Repr, DecidableEq, Inhabited
@@ -121,6 +124,7 @@ def perform (obey : Nat) (a : Act) (stop : Bool) : R :=
   match a with
   | .ret => ⟨none, stop, []⟩
   | .raise => ⟨some .other, stop, []⟩
+  | .interrupt => ⟨some .base, stop, []⟩
   | .exitCall e => exitFn e stop
   | .exitMsg err =>
       if obeyBit obey err then exitFn (if err then .propagate else .exit) stop else ⟨none, stop, []⟩
